@@ -28,6 +28,8 @@ type CliStream = h3::client::RequestStream<SimStream, Bytes>;
 
 #[derive(Clone)]
 pub struct Ctx {
+    /// task-name prefix (`""` for a single endpoint, `c.` / `s.` in two-endpoint runs)
+    pub prefix: String,
     pub trace: Trace,
     pub spawner: SpawnRef,
     pub inflight: Rc<RefCell<BTreeMap<String, String>>>,
@@ -281,7 +283,7 @@ fn accept_result(name: &str, ctx: &Ctx, r: Result<Option<h3::server::RequestReso
     match r {
         Ok(Some(resolver)) => {
             let sid = resolver.frame_stream.id().into_inner();
-            let rname = format!("q{}", sid);
+            let rname = format!("{}q{}", ctx.prefix, sid);
             let rmb: Mailbox = Default::default();
             ctx.spawner.spawn(rname.clone(), rmb.clone(), Box::pin(server_request_task(rname, resolver, rmb, ctx.clone())));
             ctx.log(name, "A", format!("req:{}", sid));
@@ -299,7 +301,7 @@ fn accept_result(name: &str, ctx: &Ctx, r: Result<Option<h3::server::RequestReso
 }
 
 async fn server_conn_task(builder: h3::server::Builder, mb: Mailbox, ctx: Ctx) {
-    let name = "conn".to_string();
+    let name = format!("{}conn", ctx.prefix);
     ctx.begin(&name, "build");
     let mut conn = match builder.build::<SimConn, Bytes>(SimConn { net: ctx.net.clone() }).await {
         Ok(c) => {
@@ -477,7 +479,7 @@ async fn wt_stream_task(name: String, mut st: WtStream, mb: Mailbox, ctx: Ctx) {
 }
 
 fn spawn_wt(ctx: &Ctx, id: u64, st: WtStream) {
-    let name = format!("w{}", id);
+    let name = format!("{}w{}", ctx.prefix, id);
     let mb: Mailbox = Default::default();
     ctx.spawner.spawn(name.clone(), mb.clone(), Box::pin(wt_stream_task(name, st, mb, ctx.clone())));
 }
@@ -485,7 +487,7 @@ fn spawn_wt(ctx: &Ctx, id: u64, st: WtStream) {
 async fn wt_session_task(sess: WtSession, mb: Mailbox, ctx: Ctx) {
     use h3::quic::{RecvStream as _, SendStream as _};
     use h3_webtransport::server::AcceptedBi;
-    let name = "conn".to_string();
+    let name = format!("{}conn", ctx.prefix);
     let pick = |arg: &str, sess: &WtSession| -> h3::webtransport::SessionId {
         match arg.parse::<u64>() {
             Ok(n) => h3::webtransport::SessionId::try_from(n).unwrap_or(sess.session_id()),
@@ -511,7 +513,7 @@ async fn wt_session_task(sess: WtSession, mb: Mailbox, ctx: Ctx) {
                     }
                     Ok(Some(AcceptedBi::Request(req, st))) => {
                         let id = st.id().into_inner();
-                        let qname = format!("q{}", id);
+                        let qname = format!("{}q{}", ctx.prefix, id);
                         let qmb: Mailbox = Default::default();
                         ctx.spawner.spawn(qname.clone(), qmb.clone(), Box::pin(server_stream_task(qname, st, qmb, ctx.clone())));
                         format!("req:{}:{}", id, render_request(&req))
@@ -609,7 +611,7 @@ async fn client_stream_task(name: String, mut st: CliStream, mb: Mailbox, ctx: C
 }
 
 async fn client_send_task(mut snd: h3::client::SendRequest<SimOpen, Bytes>, mb: Mailbox, ctx: Ctx) {
-    let name = "snd".to_string();
+    let name = format!("{}snd", ctx.prefix);
     loop {
         let cmd = NextCmd(mb.clone()).await;
         let (op, arg) = cmd.split_once(':').unwrap_or((&cmd, ""));
@@ -644,7 +646,7 @@ async fn client_send_task(mut snd: h3::client::SendRequest<SimOpen, Bytes>, mb: 
                 match snd.send_request(req).await {
                     Ok(st) => {
                         let sid = st.id().into_inner();
-                        let qname = format!("q{}", sid);
+                        let qname = format!("{}q{}", ctx.prefix, sid);
                         let qmb: Mailbox = Default::default();
                         ctx.spawner.spawn(qname.clone(), qmb.clone(), Box::pin(client_stream_task(qname, st, qmb, ctx.clone())));
                         ctx.log(&name, "R", format!("req:{}", sid));
@@ -658,7 +660,7 @@ async fn client_send_task(mut snd: h3::client::SendRequest<SimOpen, Bytes>, mb: 
 }
 
 async fn client_conn_task(mut builder: h3::client::Builder, mb: Mailbox, ctx: Ctx) {
-    let name = "drv".to_string();
+    let name = format!("{}drv", ctx.prefix);
     ctx.begin(&name, "build");
     let conn = SimConn { net: ctx.net.clone() };
     let opener = SimOpen { net: ctx.net.clone() };
@@ -674,7 +676,7 @@ async fn client_conn_task(mut builder: h3::client::Builder, mb: Mailbox, ctx: Ct
     };
     let _ = opener;
     let smb: Mailbox = Default::default();
-    ctx.spawner.spawn("snd".into(), smb.clone(), Box::pin(client_send_task(snd, smb, ctx.clone())));
+    ctx.spawner.spawn(format!("{}snd", ctx.prefix), smb.clone(), Box::pin(client_send_task(snd, smb, ctx.clone())));
     let mut driving = false;
     loop {
         let cmd = if driving {
@@ -770,9 +772,14 @@ pub fn parse_cfg(s: &str) -> Option<Cfg> {
 pub struct Run {
     pub exec: Exec,
     pub ctx: Ctx,
+    /// second endpoint of a two-endpoint run (then `ctx` is the client, `peer` the server)
+    pub peer: Option<Ctx>,
+    /// relay progress per (direction, stream): bytes moved, fin/reset/stop already relayed
+    pub relayed: BTreeMap<(bool, u64), (usize, bool, bool, bool)>,
 }
 
-pub fn start(role: &str, cfg: &Cfg) -> Option<Run> {
+/// spawn the connection task of one endpoint on `exec`'s spawner
+fn spawn_endpoint(exec: &Exec, role: &str, cfg: &Cfg, prefix: &str, trace: Trace) -> Option<Ctx> {
     let server = role == "server";
     let net = Net::new(server);
     {
@@ -781,8 +788,7 @@ pub fn start(role: &str, cfg: &Cfg) -> Option<Run> {
         n.bidi_credit = cfg.bc;
         n.default_tx_credit = cfg.wc;
     }
-    let exec = Exec::new(cfg.seed);
-    let ctx = Ctx { trace: Default::default(), spawner: exec.spawner.clone(), inflight: Default::default(), net };
+    let ctx = Ctx { prefix: prefix.to_string(), trace, spawner: exec.spawner.clone(), inflight: Default::default(), net };
     let mb: Mailbox = Default::default();
     if server {
         let mut b = h3::server::builder();
@@ -796,7 +802,7 @@ pub fn start(role: &str, cfg: &Cfg) -> Option<Run> {
         if let Some(m) = cfg.wts {
             b.max_webtransport_sessions(m);
         }
-        ctx.spawner.spawn("conn".into(), mb.clone(), Box::pin(server_conn_task(b, mb, ctx.clone())));
+        ctx.spawner.spawn(format!("{}conn", prefix), mb.clone(), Box::pin(server_conn_task(b, mb, ctx.clone())));
     } else if role == "client" {
         let mut b = h3::client::builder();
         b.send_grease(cfg.grease);
@@ -805,11 +811,29 @@ pub fn start(role: &str, cfg: &Cfg) -> Option<Run> {
         }
         b.enable_extended_connect(cfg.ec);
         b.enable_datagram(cfg.dg);
-        ctx.spawner.spawn("drv".into(), mb.clone(), Box::pin(client_conn_task(b, mb, ctx.clone())));
+        ctx.spawner.spawn(format!("{}drv", prefix), mb.clone(), Box::pin(client_conn_task(b, mb, ctx.clone())));
     } else {
         return None;
     }
-    let mut run = Run { exec, ctx };
+    Some(ctx)
+}
+
+pub fn start(role: &str, cfg: &Cfg) -> Option<Run> {
+    let exec = Exec::new(cfg.seed);
+    let ctx = spawn_endpoint(&exec, role, cfg, "", Default::default())?;
+    let mut run = Run { exec, ctx, peer: None, relayed: Default::default() };
+    run.exec.run();
+    Some(run)
+}
+
+/// two real endpoints, a client (`c.` tasks) and a server (`s.` tasks), joined by a relay that
+/// moves bytes only when the script says so
+pub fn start2(ccfg: &Cfg, scfg: &Cfg) -> Option<Run> {
+    let exec = Exec::new(ccfg.seed);
+    let trace: Trace = Default::default();
+    let c = spawn_endpoint(&exec, "client", ccfg, "c.", trace.clone())?;
+    let s = spawn_endpoint(&exec, "server", scfg, "s.", trace)?;
+    let mut run = Run { exec, ctx: c, peer: Some(s), relayed: Default::default() };
     run.exec.run();
     Some(run)
 }
@@ -823,7 +847,13 @@ impl Run {
     }
 
     fn apply(&mut self, op: &str) -> bool {
-        if let Some((task, cmd)) = op.split_once('.') {
+        // two-endpoint runs: task names are `c.<task>` / `s.<task>`
+        let split = if self.peer.is_some() && (op.starts_with("c.") || op.starts_with("s.")) {
+            op[2..].split_once('.').map(|(t, c)| (&op[..2 + t.len()], c))
+        } else {
+            op.split_once('.')
+        };
+        if let Some((task, cmd)) = split {
             if task.chars().next().map(|c| c.is_ascii_lowercase()).unwrap_or(false) && !task.contains(':') {
                 if cmd == "kill" {
                     return self.exec.kill(task);
@@ -834,7 +864,18 @@ impl Run {
                 return true;
             }
         }
-        let net = self.ctx.net.clone();
+        let (net, op) = if self.peer.is_some() {
+            // `c:<peer op>` / `s:<peer op>` act on one endpoint's transport (credit grants, faults)
+            if let Some(rest) = op.strip_prefix("c:") {
+                (self.ctx.net.clone(), rest)
+            } else if let Some(rest) = op.strip_prefix("s:") {
+                (self.peer.as_ref().unwrap().net.clone(), rest)
+            } else {
+                return self.relay(op);
+            }
+        } else {
+            (self.ctx.net.clone(), op)
+        };
         let mut n = net.borrow_mut();
         let num = |s: &str| s.parse::<u64>().ok();
         let b = op.as_bytes();
@@ -889,8 +930,116 @@ impl Run {
         }
     }
 
+    /// two-endpoint relay ops: `><sid>:<k>` move up to k bytes of stream sid client→server
+    /// (`<` for server→client; k = `*` everything), then FIN/RESET if all bytes are through;
+    /// `>x<sid>` / `<x<sid>` relay a STOP_SENDING; `>>` / `<<` everything on every stream, whole;
+    /// `>~<seed>` / `<~<seed>` everything, in random pieces of 1..7 bytes.
+    fn relay(&mut self, op: &str) -> bool {
+        let to_server = match op.as_bytes().first() {
+            Some(b'>') => true,
+            Some(b'<') => false,
+            _ => return false,
+        };
+        let (src, dst) = if to_server {
+            (self.ctx.net.clone(), self.peer.as_ref().unwrap().net.clone())
+        } else {
+            (self.peer.as_ref().unwrap().net.clone(), self.ctx.net.clone())
+        };
+        let rest = &op[1..];
+        let ids: Vec<u64> = src.borrow().streams.keys().cloned().collect();
+        let mut plan: Vec<(u64, usize, bool)> = Vec::new(); // (sid, max bytes, stop?)
+        let mut pieces = 0u64;
+        if rest == ">" || rest == "<" {
+            for id in ids {
+                plan.push((id, usize::MAX, false));
+            }
+        } else if let Some(seed) = rest.strip_prefix('~') {
+            pieces = seed.parse::<u64>().unwrap_or(1) | 1;
+            for id in ids {
+                plan.push((id, usize::MAX, false));
+            }
+        } else if let Some(id) = rest.strip_prefix('x') {
+            match id.parse::<u64>() {
+                Ok(id) => plan.push((id, 0, true)),
+                Err(_) => return false,
+            }
+        } else {
+            let Some((id, k)) = rest.split_once(':') else { return false };
+            let Ok(id) = id.parse::<u64>() else { return false };
+            let k = if k == "*" { usize::MAX } else { match k.parse::<usize>() { Ok(k) => k, Err(_) => return false } };
+            plan.push((id, k, false));
+        }
+        for (id, max, stop) in plan {
+            // which side initiated `id`? only streams the source can send on are relayed
+            let initiated_by_client = id & 1 == 0;
+            let uni = id & 2 != 0;
+            if uni && (initiated_by_client != to_server) {
+                continue;
+            }
+            let key = (to_server, id);
+            let mut st = *self.relayed.get(&key).unwrap_or(&(0, false, false, false));
+            let (bytes, fin, reset, stop_code) = {
+                let n = src.borrow();
+                match n.streams.get(&id) {
+                    Some(s) => (s.tx[st.0..].to_vec(), s.tx_fin, s.tx_reset, s.stop_sending),
+                    None => continue,
+                }
+            };
+            if stop {
+                // the source asked the other side to stop sending on `id`
+                if let (Some(c), false) = (stop_code, st.3) {
+                    dst.borrow_mut().peer_stop(id, c);
+                    st.3 = true;
+                }
+                self.relayed.insert(key, st);
+                continue;
+            }
+            let take = bytes.len().min(max);
+            if take > 0 || fin || reset.is_some() {
+                let mut d = dst.borrow_mut();
+                if !d.streams.contains_key(&id) {
+                    d.peer_open(id);
+                }
+            }
+            if take > 0 && !st.2 {
+                let mut off = 0;
+                while off < take {
+                    let k = if pieces == 0 {
+                        take - off
+                    } else {
+                        pieces ^= pieces << 13;
+                        pieces ^= pieces >> 7;
+                        pieces ^= pieces << 17;
+                        (1 + (pieces % 7) as usize).min(take - off)
+                    };
+                    dst.borrow_mut().peer_send(id, Rx::Chunk(Bytes::from(bytes[off..off + k].to_vec())));
+                    off += k;
+                }
+                st.0 += take;
+            }
+            if take == bytes.len() {
+                if let (Some(c), false) = (reset, st.2) {
+                    dst.borrow_mut().peer_send(id, Rx::Reset(c));
+                    st.2 = true;
+                } else if fin && !st.1 && !st.2 {
+                    dst.borrow_mut().peer_send(id, Rx::Fin);
+                    st.1 = true;
+                }
+            }
+            self.relayed.insert(key, st);
+        }
+        true
+    }
+
     pub fn summary(&self) -> String {
-        let n = self.ctx.net.borrow();
+        if let Some(p) = &self.peer {
+            return format!("C[{}] S[{}]", Self::summary_of(&self.ctx), Self::summary_of(p));
+        }
+        Self::summary_of(&self.ctx)
+    }
+
+    fn summary_of(ctx: &Ctx) -> String {
+        let n = ctx.net.borrow();
         let mut parts = Vec::new();
         for (id, s) in n.streams.iter() {
             let mut p = format!("{}:tx={}", id, to_hex(&s.tx));
@@ -920,7 +1069,7 @@ impl Run {
             let d: Vec<String> = n.dgram_tx.iter().map(|b| to_hex(b)).collect();
             parts.push(format!("dgrams=[{}]", d.join(",")));
         }
-        let pend: Vec<String> = self.ctx.inflight.borrow().iter().map(|(t, o)| format!("{}.{}", t, o)).collect();
+        let pend: Vec<String> = ctx.inflight.borrow().iter().map(|(t, o)| format!("{}.{}", t, o)).collect();
         parts.push(format!("pending=[{}]", pend.join(",")));
         parts.join(" ")
     }
@@ -933,6 +1082,18 @@ impl Run {
 
 pub fn handle(w: &[&str]) -> String {
     match w {
+        ["e2e", ccfg, scfg, ops @ ..] | ["iso2", ccfg, scfg, ops @ ..] => {
+            let (Some(ccfg), Some(scfg)) = (parse_cfg(ccfg), parse_cfg(scfg)) else { return "bad-op".into() };
+            guarded(|| {
+                let Some(mut run) = start2(&ccfg, &scfg) else { return "bad-op".into() };
+                for op in ops {
+                    if !run.op(op) {
+                        return format!("bad-op:{}", op);
+                    }
+                }
+                run.output()
+            })
+        }
         [_, role, cfg, ops @ ..] => {
             let Some(cfg) = parse_cfg(cfg) else { return "bad-op".into() };
             guarded(|| {
